@@ -82,10 +82,15 @@ def SortedTs (fs : List F) : Prop := fs.Pairwise (fun a b => ts a ≤ ts b)
 
 /-- SQLite keep-newest-N (`_xh_sqlite_delete_records`): rows are `tsb` values in any order.
 `threshold` = min over the N largest; rows strictly below it are deleted.
-`none` models SQL NULL (min over an empty set): `tsb < NULL` is never true. -/
+`none` models SQL NULL (min over an empty set: N = 0 or an empty table); the repaired code then
+deletes every row (`sqlKeptOld`: the pinned snapshot compared `tsb < NULL`, never true, and kept all). -/
 def sqlThreshold (n : Nat) (rows : List Int) : Option Int :=
   ((rows.mergeSort (fun a b => decide (b ≤ a))).take n).getLast?
 def sqlKept (n : Nat) (rows : List Int) : List Int :=
+  match sqlThreshold n rows with
+  | none => []
+  | some t => rows.filter (fun r => !decide (r < t))
+def sqlKeptOld (n : Nat) (rows : List Int) : List Int :=
   match sqlThreshold n rows with
   | none => rows
   | some t => rows.filter (fun r => !decide (r < t))
